@@ -171,6 +171,12 @@ _mk_kernel("KernelSTDP", "weight", False)
 _mk_kernel("DelayAdjustedKernelSTDP", "weight", False)
 _mk_kernel("DelayAdjustedKernelSTDPD", "delay", True)
 
+# the delay-adjusted rules pair receptive pre-spike times with `connection.delay.unsqueeze(-1)` tap by tap: for Conv2D this
+# relies on the receptive view and the weight-shaped delay sharing one tap order (contract Conv2D.layouts, C05)
+from . import c05_connections as _c05  # noqa: E402
+
+_c05.make_conv_layout("C18")
+
 ASSUMPTIONS = [
     "the receptive-field axis and the batch axis are each represented by ONE arbitrary element: nansum over the receptive axis and the (linear) batch reduction are applied identically on both sides of every identity, so element-wise equality implies equality of the reduced updates",
     "event-reducer outputs are times since the last spike, NaN until the first spike (EventReducer contract, C07); t_delta = t_post_last - t_pre_last - d = t_pre_elapsed - t_post_elapsed - d",
@@ -178,6 +184,7 @@ ASSUMPTIONS = [
 ]
 
 MUTANTS = [
+    dict(file=_c05.CONV, func="Conv2D.presyn_receptive", old='"b (c kh kw) l ... -> b (...) c kh kw l"', new='"b (kh kw c) l ... -> b (...) c kh kw l"', contracts=["Conv2D.layouts"], name="seed C18d: receptive view decomposes the unfolded rows as (kh kw c)"),
     dict(file=D3, func="DelayAdjustedMSTDP.forward", old="                match (state.lr_pos * signal >= 0, state.lr_neg * signal >= 0):", new="                match (state.lr_pos >= 0, state.lr_neg >= 0):", contracts=["DelayAdjustedMSTDP.forward[scalar_signal]"], name="reward sign ignored when routing LTP/LTD"),
     dict(file=D3, func="DelayAdjustedMSTDPD.forward", old="                torch.exp(t_delta_abs / (-state.tc_neg))\n                * (abs(state.lr_neg) * (t_delta >= 0).to(dtype=t_delta_abs.dtype)),", new="                torch.exp(t_delta_abs / (-state.tc_pos))\n                * (abs(state.lr_neg) * (t_delta >= 0).to(dtype=t_delta_abs.dtype)),", contracts=["DelayAdjustedMSTDPD.forward[scalar_signal]"], name="causal half uses the wrong time constant"),
     dict(file=D2, func="DelayAdjustedSTDP.forward", old="t_delta = t_pre - t_post - cell.connection.delay.unsqueeze(-1)", new="t_delta = t_post - t_pre - cell.connection.delay.unsqueeze(-1)", contracts=["DelayAdjustedSTDP.forward"]),
